@@ -48,6 +48,11 @@ def run(sid):
         "with_failing_input_replayed": sum(1 for l in viol if "no-failing-input-found" not in l),
         "caught": bool(viol),
     }
+    if os.path.exists(os.path.join(d, "patch.orig.diff")):
+        meta["patch_note"] = ("patch.diff is the sub-agent's change re-expressed against the current tree (later repository fixes touched the same "
+                              "lines); patch.orig.diff is the change as delivered")
+    if os.path.exists(os.path.join(d, "demo.orig.py")):
+        meta["demo_note"] = "demo.py locates a line of a bundled module by its text; the text was updated after a repository fix changed that line (demo.orig.py: as delivered)"
     json.dump(meta, open(os.path.join(d, "meta.json"), "w"), indent=1)
     return sid, meta["caught"], meta["with_failing_input_replayed"], meta["validated"]
 
